@@ -273,6 +273,19 @@ def project_block(log, desc, layer="L0"):
     def check_line(t, i):
         nx = next_of(t, i, ("cwait", "rel"))
         park = 1 if (nx is not None and nx[1] == "cwait") else 0
+        # the shutdown flag is read WITHOUT a lock somewhere inside this section: when a shutdown() call (or its flag flip) by another
+        # thread falls between this acquisition and the end of the section, either value may have been read ("~")
+        overlap = False
+        for j in range(i + 1, len(log)):
+            x = log[j]
+            if x[0] == t and x[1] in ("cwait", "rel") and (x[1] == "cwait" or x[2] == L):
+                break
+            if x[0] != t and ((x[1] == "call" and x[2] == "shutdown") or (x[1] == "rel" and G is not None and x[2] == G and in_shutdown.get(x[0]))):
+                overlap = True
+        if overlap:
+            if dynamic and tv_seq.get(t) != eval_seq:
+                raise Ambiguous("`_last_throttle` was re-evaluated by another thread between this submitter's store and its read")
+            return "A check %s ~ %d" % (optv(tv_of.get(t)), park)
         if dynamic and tv_seq.get(t) != eval_seq:
             raise Ambiguous("`_last_throttle` was re-evaluated by another thread between this submitter's store and its read")
         return "A check %s ? %d" % (optv(tv_of.get(t)), park)
